@@ -35,8 +35,11 @@ ASSUMPTIONS = [
     "with the matrix image of the untransformed segment (transformed)",
 ]
 
-TNAMES = ["I", "SIM", "MX", "SWAP", "S23", "KX30", "G", "SYM"]
+# R90 / QSH: matrices with an entry that is EXACTLY zero on the diagonal and a positive determinant (an exact quarter
+# turn given as numbers; a quarter turn followed by a shear) - sign tests on a*d sit on their boundary there
+TNAMES = ["I", "SIM", "MX", "SWAP", "S23", "KX30", "G", "SYM", "R90", "QSH"]
 TMATS = dict(MATS)
+TMATS["QSH"] = (0.0, 1.0, -1.0, 0.5, 2.0, -1.0)
 TMATS["SIM"] = af.mul(af.translate(3.0, -2.0), af.mul(af.rotate(math.radians(30)), af.scale(2.0)))
 CONSTR = ["kw", "pos", "dict"]
 RADII = [None, 0.0, 1.0, 3.0, 100.0, "half"]
@@ -203,7 +206,7 @@ class Shapes(SubCheck):
         M = TMATS[mname]
         tags = dict(shape=kind, how=how, m=mname)
         try:
-            sh = build_shape(svg, kind, prm, how, mname)
+            sh = out.keep(build_shape(svg, kind, prm, how, mname))
         except Exception as e:  # noqa
             out.fail("constructing %s%r via %s raised %s" % (kind, prm, how, type(e).__name__), None, repr(e),
                      kind="exception", **tags)
@@ -470,6 +473,7 @@ class PointSpellings(SubCheck):
                 doc = '<svg xmlns="http://www.w3.org/2000/svg"><%s points=%s/></svg>' % (case["kind"], quoteattr(s))
                 sh = [e for e in svg.SVG.parse(io.StringIO(doc)).elements() if isinstance(e, cls)][0]
             got = [(float(p.x), float(p.y)) for p in sh.points]
+            out.keep(sh)
         except Exception as e:  # noqa
             out.fail("%s from the point list %r (%s) raised %s" % (case["kind"], s, case["how"], type(e).__name__), self.PTS, repr(e),
                      kind="point-spelling", **case)
